@@ -29,7 +29,7 @@ META = dict(
     bounds=['limit in 0..4', 'active counts 0..4 per member',
             '<= 4 queued tasks, symbolic held bit and member name each',
             'pool of 3 (thorough: 2..4) members of one limited queue plus one task of another queue; per member a symbolic state out of 9 (waiting plain/queued/queued+held/held/awaiting-prep, preparing, submitted, running, succeeded); limit 0..2 (thorough 0..3)',
-            'membership matrix: 2 custom queues x {a, b, FAM={d,e}} bits'],
+            'membership matrix: 3 custom queues x {a, b, FAM={d,e}} listing bits (+ d in the last), all 2^10 combinations'],
     stubs=['data_store_mgr (recording stub)', 'workflow_db_mgr (stub)',
            'task_events_mgr (stub)', 'xtrigger_mgr (stub)'],
     assumptions=['"default" is the first key of the queues configuration '
@@ -121,10 +121,11 @@ NAMES = ['a', 'b', 'c', 'd', 'e']
 DESC = {'root': ['FAM', 'a', 'b', 'c', 'd', 'e'], 'FAM': ['d', 'e']}
 
 
-def membership(a1: bool, b1: bool, f1: bool, a2: bool, b2: bool, f2: bool,
-               d2: bool, l1: int, l2: int) -> bool:
+def membership(s1: int, a2: bool, b2: bool, f2: bool, a3: bool, b3: bool,
+               f3: bool, d3: bool, l1: int, l2: int) -> bool:
     """
-    pre: 0 <= l1 <= 3 and 0 <= l2 <= 3
+    pre: sl(s1=s1)
+    pre: 0 <= s1 < 8 and 0 <= l1 <= 3 and 0 <= l2 <= 3
     post: _
     """
     def listing(a, b, f, d=False):
@@ -138,11 +139,13 @@ def membership(a1: bool, b1: bool, f1: bool, a2: bool, b2: bool, f2: bool,
         if d:
             out.append('d')
         return out
-    m1, m2 = listing(a1, b1, f1), listing(a2, b2, f2, d2)
+    m1 = listing(s1 & 1 != 0, s1 & 2 != 0, s1 & 4 != 0)
+    m2, m3 = listing(a2, b2, f2), listing(a3, b3, f3, d3)
     qconfig = {
         'default': {'limit': 0, 'members': []},
         'q1': {'limit': l1, 'members': m1},
         'q2': {'limit': l2, 'members': m2},
+        'q3': {'limit': 1, 'members': m3},
     }
     mgr = IndepQueueManager(qconfig, list(NAMES), DESC)
 
@@ -151,10 +154,11 @@ def membership(a1: bool, b1: bool, f1: bool, a2: bool, b2: bool, f2: bool,
         for x in m:
             out |= set(DESC.get(x, [x]))
         return out
-    e1, e2 = expand(m1), expand(m2)
+    e1, e2, e3 = expand(m1), expand(m2), expand(m3)
     for name in NAMES:
         inq = [q for q, lq in mgr.queues.items() if name in lq.members]
-        want = 'q2' if name in e2 else 'q1' if name in e1 else 'default'
+        want = ('q3' if name in e3 else 'q2' if name in e2
+                else 'q1' if name in e1 else 'default')
         if inq != [want]:
             return False
     return (mgr.queues['q1'].limit == l1 and mgr.queues['q2'].limit == l2)
@@ -252,7 +256,7 @@ def OBLIGATIONS(tier):
     obs = [Ob('release', 'release', timeout=t),
            Ob('fifo2', 'fifo2', timeout=t),
            Ob('if_limited', 'if_limited', timeout=t),
-           Ob('membership', 'membership', timeout=t)]
+           ] + slices('membership', 'membership', 's1', range(8), timeout=t)
     for n in (2, 3, 4) if big else (3,):
         for l2 in (0, 1, 2, 3) if big else (0, 1, 2):
             obs.append(Ob(f'pool_release[n={n},lim2={l2}]',
@@ -274,7 +278,7 @@ def VALIDATE():
                    False)
     assert fifo2(1, 1, False, False, True, False, 1)
     assert if_limited(2, 1, 1, True) and if_limited(0, 4, 4, True)
-    assert membership(True, True, False, False, True, True, False, 2, 1)
+    assert membership(3, False, True, True, True, False, True, True, 2, 1)
     n += 6
     import itertools
     for st in itertools.product(range(9), repeat=3):
